@@ -232,6 +232,9 @@ func runFaultCase(fc FaultCase, pre *host.Host) (host.Result, []*host.Fault) {
 // FX3: (fixed in /repo 722c2b5, no longer excluded) vmEnvironment.load*Type discarded the error of loadProgram.
 // FX4: atree CheckStorageHealth tests `!ok` before `err` -> a GetValue error during the post-commit
 //      health check surfaces as SlabNotFoundError without the cause (dependency atree v0.16.1).
+// FX9: storage iteration (forEachStored / forEachPublic) "checks" every value by loading its type inside
+//      interpreter.checkValue, which recovers errors.ExternalError as well as user errors and SKIPS the value:
+//      a host failure while loading the type's program is swallowed.
 func knownFinding(fc FaultCase, class string, res host.Result, faults []*host.Fault) string {
 	if fc.Kind2 != "" {
 		return ""
@@ -245,11 +248,20 @@ func knownFinding(fc FaultCase, class string, res host.Result, faults []*host.Fa
 		(strings.Contains(res.Err.Error(), "failed to get child slab") || strings.Contains(res.Err.Error(), "failed to get parent slab")):
 		// the two messages are produced only by atree's storage_health_check.go
 		return "FX4"
+	case class == "swallowed" && fx9Kinds[fc.Kind] &&
+		(strings.Contains(fc.Item.Hist.Steps[fc.Step].Source, ".forEachPublic(") ||
+			(strings.Contains(fc.Item.Hist.Steps[fc.Step].Source, ".forEachStored(") && fc.Kind != "GetValue" && fc.Kind != "ValueExists")):
+		// storage reads are only swallowed when a capability's target is checked (forEachPublic)
+		return "FX9"
 	}
 	return ""
 }
 
+// callbacks reachable while checkValue loads the program of a stored value's type / checks a capability target
+var fx9Kinds = map[string]bool{"GetOrLoadProgram": true, "GetAccountContractCode": true, "GetCode": true, "ResolveLocation": true, "GetValue": true, "ValueExists": true}
+
 var knownRepros = map[string]FaultCase{
+	"FX9": {Item: findItem("tx-foreachstored-imported-types"), Engine: 0, Step: 2, Kind: "GetOrLoadProgram", Index: 0, Variant: host.FaultError},
 	"FX2": {Item: findItem("script-bls"), Engine: 0, Step: 0, Kind: "BLSAggregateSignatures", Index: 0, Variant: host.FaultError},
 	"FX4": {Item: findItem("tx-storage-big"), Engine: 1, Step: 1, Kind: "GetValue", Index: 14, Variant: host.FaultError},
 }
@@ -273,7 +285,7 @@ func TestC28(t *testing.T) {
 		return
 	}
 
-	for _, id := range []string{"FX2", "FX4"} {
+	for _, id := range []string{"FX2", "FX4", "FX9"} {
 		if rec.Known(id) {
 			fc := knownRepros[id]
 			res, faults := runFaultCase(fc, nil)
